@@ -467,7 +467,64 @@ class IArr:
                 axes.append(ax)
         return "view", IArr(self.store, axes, newshape, quat=self.quat, cplx=self.cplx, hcell=self.hcell)
 
+    def _has_list(self, idx):
+        t = idx if isinstance(idx, tuple) else (idx,)
+        return any(isinstance(i, list) for i in t)
+
+    def _gather(self, idx):
+        """Advanced indexing with one concrete list of integers (copy semantics)."""
+        t = list(idx if isinstance(idx, tuple) else (idx,))
+        k = [i for i, x in enumerate(t) if isinstance(x, list)]
+        if len(k) != 1 or not all(isinstance(v, int) for v in t[k[0]]):
+            raise OutOfReach("advanced indexing form")
+        k = k[0]
+        rows = t[k]
+        parts = []
+        for r_ in rows:
+            t2 = list(t)
+            t2[k] = r_
+            parts.append(self.getitem(tuple(t2)))
+        if all(not isinstance(p_, IArr) for p_ in parts):
+            return array_from_nested(parts)
+        snaps = [p_._snapshot() for p_ in parts]
+        sub = list(parts[0].vshape)
+        # position of the list axis among the result axes = number of non-integer indices before it
+        pos = sum(1 for x in t[:k] if isinstance(x, slice))
+
+        def fn(vi):
+            vi = list(vi)
+            r_ = vi.pop(pos)
+            if not isinstance(r_, int):
+                raise OutOfReach("symbolic index into a gathered array")
+            return snaps[r_](tuple(vi))
+        shape = sub[:pos] + [len(rows)] + sub[pos:]
+        return IArr.from_fn(shape, fn, quat=self.quat, cplx=self.cplx, hcell=self.hcell)
+
+    def _scatter(self, idx, val):
+        t = list(idx if isinstance(idx, tuple) else (idx,))
+        k = [i for i, x in enumerate(t) if isinstance(x, list)]
+        if len(k) != 1 or not all(isinstance(v, int) for v in t[k[0]]):
+            raise OutOfReach("advanced indexing form")
+        k = k[0]
+        rows = t[k]
+        pos = sum(1 for x in t[:k] if isinstance(x, slice))
+        if isinstance(val, IArr):
+            vs = val._snapshot()
+            vshape = list(val.vshape)
+        for n_, r_ in enumerate(rows):
+            t2 = list(t)
+            t2[k] = r_
+            if isinstance(val, IArr):
+                sub_shape = vshape[:pos] + vshape[pos + 1:]
+                piece = IArr.from_fn(sub_shape, lambda vi, n_=n_: vs(tuple(list(vi[:pos]) + [n_] + list(vi[pos:]))), quat=val.quat, cplx=val.cplx, hcell=val.hcell) \
+                    if sub_shape else vs((n_,))
+            else:
+                piece = val
+            self.setitem(tuple(t2), piece)
+
     def getitem(self, idx):
+        if self._has_list(idx):
+            return self._gather(idx)
         kind, r = self._index(idx)
         if kind == "scalar":
             return self.at(*r)
@@ -484,6 +541,8 @@ class IArr:
 
     # writes
     def setitem(self, idx, val):
+        if self._has_list(idx):
+            return self._scatter(idx, val)
         kind, r = self._index(idx)
         target = self if kind == "view" else None
         if kind == "scalar":
